@@ -318,6 +318,32 @@ fn run_board(prop: Prop, tier: Tier) -> i32 {
         fams.push(json!({"family": sf.name(), "index_space": sf.len(), "legal_members": n, "flipped_members": n2, "secs": t0.elapsed().as_secs_f64()}));
     }
 
+    // DPBLOCK (slider check that only a pawn's double step can block) and PUSHCHK (double push that
+    // checks and can be taken en passant): the rare sole-reply shapes
+    if matches!(prop, Prop::C01 | Prop::C05) {
+        let t0 = Instant::now();
+        let fam = DpBlock;
+        let sf = Strided(&fam, if tier == Tier::Quick { 4_999 } else { 97 });
+        let n = for_family(&sf, &|p| visit(&ctx, p));
+        let n2 = for_family(&Flipped(&sf), &|p| visit(&ctx, p));
+        fams.push(json!({"family": sf.name(), "index_space": sf.len(), "legal_members": n, "flipped_members": n2, "secs": t0.elapsed().as_secs_f64()}));
+        let t0 = Instant::now();
+        let fam = PushChk;
+        let sf = Strided(&fam, if tier == Tier::Quick { 401 } else { 11 });
+        // the positions AFTER the double push: in check, e.p. available
+        let after_push = |p: &Pos| {
+            for m in p.legal() {
+                if m.piece == PAWN && (m.from as i32 - m.to as i32).abs() == 16 {
+                    let q = p.make(&m);
+                    visit(&ctx, &q);
+                    visit(&ctx, &q.flip());
+                }
+            }
+        };
+        let n = for_family(&sf, &after_push);
+        fams.push(json!({"family": format!("{} — successors of the double push, and flips", sf.name()), "legal_members": n, "secs": t0.elapsed().as_secs_f64()}));
+    }
+
     // CLOCKS
     if matches!(prop, Prop::C02 | Prop::C03 | Prop::C06 | Prop::C12) {
         let t0 = Instant::now();
@@ -408,6 +434,13 @@ fn run_board(prop: Prop, tier: Tier) -> i32 {
     for k in need {
         if ctx.counters.get(k) == 0 {
             rep.machinery(format!("vacuous: counter {} is zero", k));
+        }
+    }
+    if prop == Prop::C05 {
+        for k in ["states_whose_only_legal_moves_are_double_pawn_steps", "states_whose_only_legal_moves_are_en_passant_captures", "states_whose_only_legal_moves_are_promotions"] {
+            if ctx.counters.get(k) == 0 {
+                rep.machinery(format!("vacuous: counter {} is zero", k));
+            }
         }
     }
     finish(&rep, tier, cov, started)
